@@ -373,7 +373,9 @@ type c02Node struct {
 	body, body2      []*c02Node
 	mode             string // once | twice | else | none | cond | loop
 	// control flow inside loops
-	flow        int    // leaf: c02Break / c02Continue (executed when the condition, if any, holds)
+	flow        int    // leaf: c02Break / c02Continue / c02Return (executed when the condition, if any, holds)
+	retB        bool   // block: a function or helper body; a return inside it ends here (the body's output so far, then the value, is the call's value)
+	sep         string // mode call: literal text between the calls
 	cvar, cval  string // condition "cvar == cval" on a loop variable (leaf with flow, or block of mode cond); cval is the rendered value
 	cneg        bool   // condition is "!="
 	transparent bool   // an if-block: break/continue inside it act on the enclosing loop
@@ -386,6 +388,7 @@ type c02Node struct {
 const (
 	c02Break    = 1
 	c02Continue = 2
+	c02Return   = 3
 )
 
 // c02LoopVar is a loop variable in scope: its name and its rendered value per iteration.
@@ -400,6 +403,7 @@ type c02LoopVar struct {
 type c02LC struct {
 	lvs     []c02LoopVar
 	canFlow bool
+	canRet  bool // a return written here leaves a function / helper body (directly or through <%= if %> blocks, no loop in between)
 }
 
 type c02Var struct{ name, val string }
@@ -723,6 +727,73 @@ func (g *c02Gen) flowNode(lc c02LC) *c02Node {
 	return &c02Node{feat: kw, src: "<%" + a + kw + b + "%>", flow: fl}
 }
 
+// retNode: return of a string literal / an int / a readable variable, bare or as the only statement of a silent
+// inline if on a parameter or loop variable. What the body put out before it stays; the value follows.
+func (g *c02Gen) retNode(vars []c02Var, lc c02LC) *c02Node {
+	a, b := g.pad()
+	if a == "" {
+		a = " "
+	}
+	open, close := "<%"+a, b+"%>"
+	if len(lc.lvs) > 0 && g.r.Chance(40) {
+		lv, cval, cond, neg := g.condOn(lc)
+		var n *c02Node
+		if g.r.Chance(30) {
+			v := strconv.Itoa(g.r.Intn(1000))
+			n = &c02Node{feat: "if-return-int", src: open + "if (" + cond + ") { return " + v + " }" + close, want: v}
+		} else {
+			n = g.strLeaf("if-return", true, false, open+"if ("+cond+") { return ", " }"+close)
+		}
+		n.flow, n.cvar, n.use, n.cval, n.cneg = c02Return, lv.name, lv.name, cval, neg
+		return n
+	}
+	switch k := g.r.Intn(10); {
+	case k < 2:
+		v := strconv.Itoa(g.r.Intn(1000))
+		return &c02Node{feat: "return-int", src: open + "return " + v + close, want: v, flow: c02Return}
+	case k < 4 && len(vars) > 0:
+		v := Pick(g.r, vars)
+		return &c02Node{feat: "return-var", use: v.name, reads: true, src: open + "return " + v.name + close, flow: c02Return}
+	case k == 4:
+		n := g.strLeaf("return-raw", true, true, open+"return raw(", ")"+close)
+		n.flow = c02Return
+		return n
+	default:
+		n := g.strLeaf("return", true, false, open+"return ", close)
+		n.flow = c02Return
+		return n
+	}
+}
+
+// callNode: a function of one parameter, called 1..3 times with int or string arguments; the body sees the
+// parameter (prints it, tests it in if-blocks, returns on it).
+func (g *c02Gen) callNode(depth int, vars []c02Var, lc c02LC) *c02Node {
+	f, p := g.fresh("f"), g.fresh("p")
+	n := &c02Node{feat: "fn-param", mode: "call", retB: true, lval: p, sep: Pick(g.r, []string{"", "|", " ", "\n"})}
+	k := g.r.Range(1, 3)
+	str := g.r.Chance(40)
+	pool := []string{"1", "2", "3", "10"}
+	if str {
+		n.feat = "fn-param-str"
+		pool = []string{"p", "q<", "&r", ""}
+	}
+	var calls []string
+	for i := 0; i < k; i++ {
+		v := Pick(g.r, pool)
+		n.lvals = append(n.lvals, v)
+		lit := v
+		if str {
+			lit = `"` + v + `"`
+		}
+		calls = append(calls, "<%= "+f+"("+lit+") %>")
+	}
+	n.open, n.close = g.sp("<% let "+f+" = fn("+p+") { %>"), g.sp("<% } %>"+strings.Join(calls, n.sep))
+	vs := append(append([]c02Var{}, vars...), c02Var{name: p})
+	sub := c02LC{lvs: append(append([]c02LoopVar{}, lc.lvs...), c02LoopVar{p, n.lvals, str}), canRet: true}
+	n.body = g.list(g.r.Range(1, 5), depth+1, vs, len(vs), sub)
+	return n
+}
+
 func (g *c02Gen) sp(s string) string { // layout variation of the tag delimiters
 	if g.r.Chance(25) {
 		return strings.NewReplacer("<%= ", "<%=", "<% ", "<%", " %>", "%>").Replace(s)
@@ -789,10 +860,13 @@ func (g *c02Gen) loopNode(depth int, vars []c02Var, lc c02LC, silent bool) *c02N
 
 func (g *c02Gen) blockNode(depth int, vars []c02Var, lc c02LC) *c02Node {
 	sp := g.sp
-	opaque := c02LC{lvs: lc.lvs} // break/continue do not reach through functions, helpers and code-tag blocks
+	opaque := c02LC{lvs: lc.lvs}               // break/continue do not reach through functions, helpers and code-tag blocks
+	fnBody := c02LC{lvs: lc.lvs, canRet: true} // a return ends the function / helper body
 	inner := func(sub c02LC) []*c02Node { return g.inner(depth, vars, sub, 0, 4) }
 	n := &c02Node{}
-	switch k := g.r.Intn(18); k {
+	switch k := g.r.Intn(21); k {
+	case 18, 19, 20:
+		return g.callNode(depth, vars, lc)
 	case 0, 1:
 		n.feat, n.mode, n.transparent, n.open, n.close = "ifT", "once", true, sp("<%= if (true) { %>"), sp("<% } %>")
 		n.body = inner(lc)
@@ -808,14 +882,14 @@ func (g *c02Gen) blockNode(depth int, vars []c02Var, lc c02LC) *c02Node {
 	case 5:
 		f := g.fresh("f")
 		n.feat, n.mode, n.open, n.close = "fn", "once", sp("<% let "+f+" = fn() { %>"), sp("<% } %><%= "+f+"() %>")
-		n.body = inner(opaque)
+		n.retB, n.body = true, inner(fnBody)
 	case 6:
 		f := g.fresh("f")
 		n.feat, n.mode, n.open, n.close = "fn2", "twice", sp("<% let "+f+" = fn() { %>"), sp("<% } %><%= "+f+"() %><%= "+f+"() %>")
-		n.body = inner(opaque)
+		n.retB, n.body = true, inner(fnBody)
 	case 7:
 		n.feat, n.mode, n.open, n.close = "blk", "once", sp("<%= blk() { %>"), sp("<% } %>")
-		n.body = inner(opaque)
+		n.retB, n.body = true, inner(fnBody)
 	case 8:
 		n.feat, n.mode, n.open, n.close = "silent-if", "none", sp("<% if (true) { %>"), sp("<% } %>")
 		n.body = inner(opaque)
@@ -824,10 +898,10 @@ func (g *c02Gen) blockNode(depth int, vars []c02Var, lc c02LC) *c02Node {
 	case 10:
 		f := g.fresh("f")
 		n.feat, n.mode, n.open, n.close = "silent-fncall", "none", sp("<% let "+f+" = fn() { %>"), sp("<% } %><% "+f+"() %>")
-		n.body = inner(opaque)
+		n.retB, n.body = true, inner(fnBody)
 	case 11:
 		n.feat, n.mode, n.open, n.close = "silent-blk", "none", sp("<% blk() { %>"), sp("<% } %>")
-		n.body = inner(opaque)
+		n.retB, n.body = true, inner(fnBody)
 	default:
 		n.feat, n.mode, n.transparent, n.open, n.els, n.close = "ifElseIf", "else", true, sp("<%= if (false) { %>"), sp("<% } else if (true) { %>"), sp("<% } %>")
 		n.body = inner(lc)
@@ -842,6 +916,11 @@ func (g *c02Gen) list(n, depth int, vars []c02Var, own int, lc c02LC) []*c02Node
 	for i := 0; i < n; i++ {
 		if lc.canFlow && g.r.Chance(12) {
 			out = append(out, g.flowNode(lc))
+			lastText = false
+			continue
+		}
+		if lc.canRet && g.r.Chance(10) {
+			out = append(out, g.retNode(vars, lc))
 			lastText = false
 			continue
 		}
@@ -877,7 +956,7 @@ func (g *c02Gen) list(n, depth int, vars []c02Var, own int, lc c02LC) []*c02Node
 // reference decodes them; ok=false when a text would change the meaning of what follows it (a text ending
 // in a lone backslash in front of a tag, or containing a live tag opener).
 func c02Eval(ns []*c02Node, inBlock bool) (tmpl, want string, ok bool) {
-	tmpl, want, ok, _ = c02EvalIn(ns, inBlock, map[string]string{}, false)
+	tmpl, want, ok, _ = c02EvalIn(ns, inBlock, map[string]string{}, false, false)
 	return
 }
 
@@ -889,8 +968,10 @@ func c02CondHolds(n *c02Node, defined map[string]string) bool {
 // shorten a let or an assignment and the expected output stays right. Loop bodies are evaluated once per
 // iteration with the loop variables bound; flow reports a break/continue that was executed in this list
 // (what follows it in the list is printed to the template but contributes nothing). A break/continue
-// where no loop can be reached (inLoop false) makes the program invalid.
-func c02EvalIn(ns []*c02Node, inBlock bool, outer map[string]string, inLoop bool) (tmpl, want string, ok bool, flow int) {
+// where no loop can be reached (inLoop false) makes the program invalid. A return counts with its value and
+// ends every list up to the enclosing function / helper body (inFn: there is one, reached through <%= if %>
+// blocks only); elsewhere it makes the program invalid.
+func c02EvalIn(ns []*c02Node, inBlock bool, outer map[string]string, inLoop, inFn bool) (tmpl, want string, ok bool, flow int) {
 	defined := map[string]string{}
 	for k, v := range outer {
 		defined[k] = v
@@ -920,8 +1001,8 @@ func c02EvalIn(ns []*c02Node, inBlock bool, outer map[string]string, inLoop bool
 		emit(out)
 		pending = ""
 	}
-	sub := func(body []*c02Node, d map[string]string, loop bool) (string, string, int) {
-		t, w, bok, fl := c02EvalIn(body, true, d, loop)
+	sub := func(body []*c02Node, d map[string]string, loop, fn bool) (string, string, int) {
+		t, w, bok, fl := c02EvalIn(body, true, d, loop, fn)
 		if !bok {
 			ok = false
 		}
@@ -952,6 +1033,18 @@ func c02EvalIn(ns []*c02Node, inBlock bool, outer map[string]string, inLoop bool
 		if n.mode == "" {
 			tb.WriteString(n.src)
 			switch {
+			case n.flow == c02Return:
+				if !inFn {
+					ok = false
+				}
+				if n.cvar == "" || c02CondHolds(n, defined) {
+					if n.reads {
+						emit(template.HTMLEscapeString(defined[n.use]))
+					} else {
+						emit(n.want)
+					}
+					exit(n.flow)
+				}
 			case n.flow != 0:
 				if !inLoop {
 					ok = false
@@ -967,32 +1060,55 @@ func c02EvalIn(ns []*c02Node, inBlock bool, outer map[string]string, inLoop bool
 			continue
 		}
 		pass := inLoop && n.transparent
+		passR := n.retB || (inFn && n.transparent)
+		through := func(fl int) { // a break/continue/return that was executed in a body of this block
+			switch {
+			case fl == c02Return:
+				if !n.retB && passR { // at the function / helper body it has arrived
+					exit(fl)
+				}
+			case pass:
+				exit(fl)
+			}
+		}
 		switch n.mode {
 		case "once", "twice", "none":
-			bt, bw, fl := sub(n.body, defined, pass)
+			bt, bw, fl := sub(n.body, defined, pass, passR)
 			tb.WriteString(n.open + bt + n.close)
 			if n.mode != "none" {
 				emit(bw)
 				if n.mode == "twice" {
 					emit(bw)
 				}
-				if pass {
-					exit(fl)
-				}
+				through(fl)
 			}
+		case "call":
+			bodyT := ""
+			for j, arg := range n.lvals {
+				d := map[string]string{}
+				for k, v := range defined {
+					d[k] = v
+				}
+				d[n.lval] = arg
+				bt, bw, _ := sub(n.body, d, false, true)
+				bodyT = bt
+				if j > 0 {
+					emit(n.sep)
+				}
+				emit(bw)
+			}
+			tb.WriteString(n.open + bodyT + n.close)
 		case "else":
-			bt, _, _ := sub(n.body, defined, pass)
-			b2t, b2w, fl := sub(n.body2, defined, pass)
+			bt, _, _ := sub(n.body, defined, pass, passR)
+			b2t, b2w, fl := sub(n.body2, defined, pass, passR)
 			tb.WriteString(n.open + bt + n.els + b2t + n.close)
 			emit(b2w)
-			if pass {
-				exit(fl)
-			}
+			through(fl)
 		case "cond":
-			bt, bw, fl := sub(n.body, defined, pass)
+			bt, bw, fl := sub(n.body, defined, pass, passR)
 			tb.WriteString(n.open + bt)
 			if n.els != "" {
-				b2t, b2w, fl2 := sub(n.body2, defined, pass)
+				b2t, b2w, fl2 := sub(n.body2, defined, pass, passR)
 				tb.WriteString(n.els + b2t)
 				if !c02CondHolds(n, defined) {
 					bw, fl = b2w, fl2
@@ -1002,9 +1118,7 @@ func c02EvalIn(ns []*c02Node, inBlock bool, outer map[string]string, inLoop bool
 			}
 			tb.WriteString(n.close)
 			emit(bw)
-			if pass {
-				exit(fl)
-			}
+			through(fl)
 		case "loop":
 			bodyT := ""
 			for j := 0; j < len(n.lvals) || j == 0; j++ {
@@ -1022,7 +1136,7 @@ func c02EvalIn(ns []*c02Node, inBlock bool, outer map[string]string, inLoop bool
 				if n.lval != "" {
 					d[n.lval] = vv
 				}
-				bt, bw, fl := sub(n.body, d, true)
+				bt, bw, fl := sub(n.body, d, true, false)
 				bodyT = bt
 				if j >= len(n.lvals) {
 					break
@@ -1220,7 +1334,7 @@ func c02ShrinkSeg(root []*c02Node, problem, shape string) []*c02Node {
 			}
 		})
 		free := func(n *c02Node) bool { return n.build != nil }
-		canon := func(n *c02Node) bool { return n.build != nil && !n.asg && (n.def == "" || !used[n.def]) }
+		canon := func(n *c02Node) bool { return n.build != nil && n.flow == 0 && !n.asg && (n.def == "" || !used[n.def]) }
 		// canonical leaf form: a plain output tag holding the same double-quoted literal
 		lists(&root, func(l *[]*c02Node) {
 			for _, n := range *l {
@@ -1242,6 +1356,19 @@ func c02ShrinkSeg(root []*c02Node, problem, shape string) []*c02Node {
 				}
 			}
 		})
+		// canonical return: the bare return of an int
+		lists(&root, func(l *[]*c02Node) {
+			for _, n := range *l {
+				if n.flow != c02Return || n.feat == "return-int" {
+					continue
+				}
+				sv := *n
+				*n = c02Node{feat: "return-int", src: "<% return 0 %>", want: "0", flow: c02Return}
+				if !same(root) {
+					*n = sv
+				}
+			}
+		})
 		// canonical block form
 		lists(&root, func(l *[]*c02Node) {
 			for _, n := range *l {
@@ -1253,14 +1380,35 @@ func c02ShrinkSeg(root []*c02Node, problem, shape string) []*c02Node {
 						*n = sv
 					}
 				}
-				if n.mode == "once" || n.mode == "twice" {
+				if n.mode == "cond" {
+					for _, body := range [][]*c02Node{n.body, n.body2} {
+						sv := *n
+						n.feat, n.mode, n.transparent, n.open, n.els, n.close = "ifT", "once", true, "<%= if (true) { %>", "", "<% } %>"
+						n.cvar, n.use, n.cval, n.cneg = "", "", "", false
+						n.body, n.body2 = body, nil
+						if same(root) {
+							break
+						}
+						*n = sv
+					}
+				}
+				if n.mode == "once" || n.mode == "twice" || n.mode == "call" {
 					if n.feat == "ifT" {
 						continue
 					}
 					sv := *n
-					n.feat, n.mode, n.transparent, n.open, n.close = "ifT", "once", true, "<%= if (true) { %>", "<% } %>"
-					if !same(root) {
-						*n = sv
+					n.feat, n.mode, n.transparent, n.retB, n.open, n.close = "ifT", "once", true, false, "<%= if (true) { %>", "<% } %>"
+					n.lval, n.lvals, n.sep = "", nil, ""
+					if same(root) {
+						continue
+					}
+					*n = sv
+					if n.retB && n.feat != "fn" { // a body that needs its function: the plain one, called once
+						n.feat, n.mode, n.open, n.close = "fn", "once", "<% let zf = fn() { %>", "<% } %><%= zf() %>"
+						n.lval, n.lvals, n.sep = "", nil, ""
+						if !same(root) {
+							*n = sv
+						}
 					}
 				}
 			}
@@ -1332,6 +1480,9 @@ func c02SegStream(cfg Config) *Report {
 		"range/between/until, application-defined Iterators, 0..3 iterations, plus a 3-entry Go map whose body ignores key and value; loop bodies read the loop variables, hold if-blocks " +
 		"testing them (==, !=, with/without else) and break/continue (bare, or as <% if (v == x) { break } %>) directly or inside <%= if %> blocks, with text/tags before and after them; " +
 		"the expected output is computed per iteration: what precedes an executed break/continue in its iteration counts, what follows does not; " +
+		"functions of one parameter called 1..3 times with int/string arguments (body prints the parameter and holds if-blocks testing it); " +
+		"return (of a string literal in both quote styles, raw(), an int, a variable/parameter; bare or as <% if (p == x) { return v } %>) in function and block-helper bodies, " +
+		"directly or nested in <%= if/else/else-if %> blocks, with text/tags before and after it: the text and values the body put out before the executed return count, then the returned value, what follows does not (per call); " +
 		"random tag padding; expected output = concatenation of each segment's contribution (text via the escape reference, merged over adjacent texts); " +
 		"plus long random texts mixing the escape forms with simple tags; every program is valid by construction; non-trivial = has a tag; distinct by template text"
 	rep.Notes = append(rep.Notes,
@@ -1341,6 +1492,8 @@ func c02SegStream(cfg Config) *Report {
 		"a Render error on these valid programs is reported as wrong-error",
 		"break/continue are never put inside a code-tag if that also holds text or output tags (<% if (c) { %>text<% break %><% } %>): plush emits that text although the property says a code-tag if contributes nothing (upstream pins it in Test_Render_For_Array_Break_String); left open, not checked",
 		"break/continue are only generated where a loop is reached through <%= if %> blocks (not through fn/helper blocks); maps with several entries are only looped over with bodies that ignore key and value (iteration order is not fixed)",
+		"return is only generated inside a function / block-helper body and reaches it through <%= if %> blocks only: a return directly in a top-level tag or top-level <%= if %>, inside a for body "+
+			"(plush ends the iteration, not the function) or inside a code-tag if that also holds text is left open (the property does not say what return means there)",
 		"failing programs are shrunk (nodes removed, blocks turned into <%= if (true) { %>, texts and literal contents shortened); the family id is the shape of the shrunk program")
 
 	fail := func(caseText, problem, what, site string) {
